@@ -57,7 +57,9 @@ fn has_anon(t: &Ty) -> bool {
 /// A definition the generator is expected to handle (no risky feature), then optionally one
 /// risky feature injected. `idx` makes the interface name unique.
 pub fn gen_for_generator(rng: &mut Rng, idx: usize, risky_pct: usize, depth: usize) -> GenIdl {
-    let cfg = GenCfg { max_depth: depth, max_members: 6, max_fields: 4, keyword_fields: true, keyword_names: false, raw_forbidden: false, typerefs: true, comments: true, finite: true };
+    // self / Self / super / crate as field or element names are handled by the generator since
+    // fix 4ad3b39 (trailing underscore + serde rename), so they are part of the clean class
+    let cfg = GenCfg { max_depth: depth, max_members: 6, max_fields: 4, keyword_fields: true, keyword_names: false, raw_forbidden: true, typerefs: true, comments: true, finite: true };
     let mut idl = gen_idl(rng, &cfg);
     idl.name = format!("org.verif.g{}.x{}", idx, rng.pick(&["", "-y", ".Z9"]));
     // anonymous types in error parameters are a risky feature: remove them by default
@@ -101,7 +103,7 @@ pub fn gen_for_generator(rng: &mut Rng, idx: usize, risky_pct: usize, depth: usi
                     1 => idl.members.push(Member { kind: MKind::Type, name: "RiskyRaw".into(), comments: vec![], a: Ty::Struct(vec![fld]), b: None }),
                     _ => idl.members.push(Member { kind: MKind::Type, name: "RiskyRaw".into(), comments: vec![], a: Ty::Enum(vec![n.to_string(), "other".into()]), b: None }),
                 }
-                risky = Some(("field-or-enum-name-cannot-be-raw-identifier".to_string(), n.to_string()));
+                let _ = n; // no longer a risky feature: must generate and compile
             }
             _ => {
                 let n = *rng.pick(&["Option", "Vec", "String", "Result", "Box", "Error", "ErrorKind", "Ok", "Some", "Self", "Call", "VarlinkClient", "VarlinkInterface"]);
@@ -121,8 +123,9 @@ pub fn gen_for_generator(rng: &mut Rng, idx: usize, risky_pct: usize, depth: usi
 }
 
 /// Risky patterns that can arise without being injected: a method/error parameter whose own
-/// anonymous enum type has an element spelled like the parameter (rustc E0170 on the binding).
+/// enum type (anonymous or a typedef) has an element spelled like the parameter (rustc E0170).
 pub fn inherent_risk(idl: &Idl) -> Option<(String, String)> {
+    let enums: std::collections::HashMap<&str, &Vec<String>> = idl.members.iter().filter_map(|m| if let (MKind::Type, Ty::Enum(es)) = (m.kind, &m.a) { Some((m.name.as_str(), es)) } else { None }).collect();
     for m in &idl.members {
         if m.kind == MKind::Type {
             continue;
@@ -130,10 +133,13 @@ pub fn inherent_risk(idl: &Idl) -> Option<(String, String)> {
         for t in [Some(&m.a), m.b.as_ref()].into_iter().flatten() {
             if let Ty::Struct(fs) = t {
                 for (n, ft) in fs {
-                    if let Ty::Enum(es) = ft {
-                        if es.contains(n) {
-                            return Some(("parameter-named-like-an-element-of-its-own-anonymous-enum".into(), format!("{}.{}", m.name, n)));
-                        }
+                    let es: Option<&Vec<String>> = match ft {
+                        Ty::Enum(es) => Some(es),
+                        Ty::Name(tn) => enums.get(tn.as_str()).copied(),
+                        _ => None,
+                    };
+                    if es.map(|e| e.contains(n)).unwrap_or(false) {
+                        return Some(("parameter-named-like-an-element-of-its-own-enum-type".into(), format!("{}.{}", m.name, n)));
                     }
                 }
             }
